@@ -12,7 +12,7 @@ import time
 
 VERIF = os.path.dirname(os.path.dirname(os.path.abspath(__file__)))
 REPO = os.path.abspath(os.environ.get('VERIF_REPO', '/repo'))
-CACHE = os.path.join(VERIF, '.cache')
+CACHE = os.environ.get('VERIF_CACHE') or os.path.join(VERIF, '.cache')     # selftest workers use private caches (own cargo target dir)
 DRIVER_DIR = os.path.join(VERIF, 'driver')
 DRIVER_BIN = os.path.join(DRIVER_DIR, 'target', 'release', 'grmfacts')
 EVIDENCE = os.path.join(VERIF, 'evidence')
